@@ -211,6 +211,9 @@ namespace
       const bool do_fault = sim::cfg_int("faulted", 0, 2) != 0;
       // ---- clean pipeline
       Bytes b0 = fe.bytes;
+      // generated variants: the parameters of the analytic charts (Extrude rotation/offset/origin, Circle, Sphere) are
+      // replaced by seeded legal values before the first parse - the write/parse/write fixpoint must hold for them too
+      if(sim::cfg_int("vary_charts", 0, 1) == 1) vary_chart_params(b0);
       Doc d0;
       Parsed p0 = parse(b0, d0, c_r0, vary, size_t(-1));
       if(p0.outcome != PARSED) sim::fail("VALID_FILE_REJECTED", where + ": shipped mesh file rejected: " + p0.what);
@@ -286,6 +289,42 @@ namespace
       if(p3.outcome != PARSED) sim::fail("ACCEPTED_NOT_REWRITABLE", where + ": input accepted after " + log.ops + "but its re-written form is rejected: " + p3.what);
       write(d3, b4, 4096, false);
       if(b3 != b4) sim::fail("ACCEPTED_NO_FIXPOINT", where + ": input accepted after " + log.ops + "does not reach a write/parse fixpoint");
+    }
+
+    static std::string dy(long k, long den) { char b[64]; snprintf(b, sizeof(b), "%.10g", double(k) / double(den)); return b; }
+
+    static void vary_chart_params(Bytes& b)
+    {
+      std::string s(b.begin(), b.end());
+      int n = 0;
+      // <Extrude ...> : angles in revolutions (multiples of 1/8 incl. the gimbal-lock pitches +-1/4), offset, origin
+      for(size_t p = s.find("<Extrude"); p != std::string::npos; p = s.find("<Extrude", p + 1))
+      {
+        size_t e = s.find('>', p);
+        if(e == std::string::npos) break;
+        const std::string tag = "<Extrude angles=\"" + dy(long(simfs::pick(9, "ex_yaw")) - 4, 8) + " " + dy(long(simfs::pick(9, "ex_pitch")) - 4, 8) + " " + dy(long(simfs::pick(9, "ex_roll")) - 4, 8) +
+          "\" offset=\"" + dy(long(simfs::pick(9, "ex_ox")) - 4, 4) + " " + dy(long(simfs::pick(9, "ex_oy")) - 4, 4) + " " + dy(long(simfs::pick(9, "ex_oz")) - 4, 4) +
+          "\" origin=\"" + dy(long(simfs::pick(5, "ex_rx")) - 2, 2) + " " + dy(long(simfs::pick(5, "ex_ry")) - 2, 2) + "\"";
+        s.replace(p, e - p, tag);
+        ++n;
+      }
+      for(size_t p = s.find("<Circle "); p != std::string::npos; p = s.find("<Circle ", p + 1))
+      {
+        size_t q = s.find("radius=\"", p), e = s.find('>', p);
+        if(q == std::string::npos || e == std::string::npos || q > e) continue;
+        size_t q2 = s.find('"', q + 8);
+        s.replace(q + 8, q2 - (q + 8), dy(1 + long(simfs::pick(16, "ci_r")), 8));
+        ++n;
+      }
+      for(size_t p = s.find("<Sphere "); p != std::string::npos; p = s.find("<Sphere ", p + 1))
+      {
+        size_t q = s.find("midpoint=\"", p), e = s.find('>', p);
+        if(q == std::string::npos || e == std::string::npos || q > e) continue;
+        size_t q2 = s.find('"', q + 10);
+        s.replace(q + 10, q2 - (q + 10), dy(long(simfs::pick(9, "sp_x")) - 4, 4) + " " + dy(long(simfs::pick(9, "sp_y")) - 4, 4) + " " + dy(long(simfs::pick(9, "sp_z")) - 4, 4));
+        ++n;
+      }
+      if(n) { b.assign(s.begin(), s.end()); sim::probe("chart_parameters_varied", uint64_t(n)); }
     }
 
     // ---- text-level fault ops that know the file format just enough to be invalid by construction ----------
